@@ -39,8 +39,105 @@ Definition c19_health_holds (kind max : Z) (probes : list Z) (events : list (lis
   let errs := map (fun p => hm_probe_err (c19_kind kind) (c19_probe p)) probes in
   c19_zll_eqb events (c19_health_expected (hm_norm_max max) [] errs).
 
+(* ---------- reconcile: proxy manager with its wrappers ---------- *)
+Inductive c19_rop :=
+| ROUpdate (cfgs : list (Z * Z * bool))        (* name, value, monitor *)
+| ROResp (name : Z) (resp_err run_ok : bool)
+| ROHealth (name : Z) (h : Z)
+| ROWork (name : Z)
+| ROElapse (d : Z)                              (* the logical clock jumps by d *)
+| ROSettle
+| ROClose.
+
+(* op, set of messages (kind 1 NewProxy / 2 CloseProxy, name, value), result, status rows
+   (name, wrapper id, phase, Err <> "", value) *)
+Definition c19_rstep : Type := c19_rop * list (Z * Z * Z) * Z * list (Z * Z * Z * Z * Z).
+
 Inductive c19_case :=
-| CHealth (kind maxFailed : Z) (hasN hasF : bool) (probes : list Z) (events : list (list Z)).
+| CHealth (kind maxFailed : Z) (hasN hasF : bool) (probes : list Z) (events : list (list Z))
+| CRecon (w e : Z) (steps : list c19_rstep).
+
+Definition c19_cfg (x : Z * Z * bool) : rc_cfg :=
+  let '(n, v, h) := x in {| rc_name := n; rc_val := v; rc_hc := h |}.
+
+(* every wrapper ever created runs one checkWorker iteration *)
+Definition c19_tick_all (t : pw_timing) (s : pm_state) (now : Z) : pm_state * list pm_out :=
+  fold_left (fun acc id => let '(s1, o1) := acc in
+                           let '(s2, o2) := pm_step t s1 (PMTick id now) in (s2, o1 ++ o2))
+            (map Z.of_nat (seq 0 (Z.to_nat (pm_next s)))) (s, []).
+
+Definition c19_model_step (t : pw_timing) (s : pm_state) (now : Z) (op : c19_rop)
+  : pm_state * Z * list pm_out :=
+  let now1 := now + 1 + match op with ROElapse d => d | _ => 0 end in
+  let '(s1, o1) :=
+    match op with
+    | ROUpdate cfgs => pm_step t s (PMUpdate (map c19_cfg cfgs))
+    | ROResp n e r => pm_step t s (PMResp n now1 e r)
+    | ROHealth n h =>
+        match rc_get (pm_map s) n with
+        | Some en => if pw_mon (pe_w en) then pm_step t s (PMHealth (pe_id en) h) else (s, [])
+        | None => (s, [])
+        end
+    | ROWork n => pm_step t s (PMWork n)
+    | ROElapse _ => (s, [])
+    | ROSettle => (s, [])
+    | ROClose => pm_step t s PMClose
+    end in
+  let '(s2, o2) := c19_tick_all t s1 now1 in
+  (s2, now1, o1 ++ o2).
+
+Definition c19_msg_of (o : pm_out) : list (Z * Z * Z) :=
+  match o with
+  | PMNewProxy n v => [(1, n, v)]
+  | PMCloseProxy n => [(2, n, 0)]
+  | PMPanic _ => [(8, 0, 0)]
+  | _ => []
+  end.
+Definition c19_result_of (o : pm_out) : list Z :=
+  match o with
+  | PMRespOk _ => [1] | PMRespErr _ => [2] | PMRespIgnored _ => [3] | PMRespNotFound _ => [4]
+  | PMWorkAccepted _ => [5] | PMWorkClosed _ => [6]
+  | _ => []
+  end.
+
+Definition c19_t3_eqb (a b : Z * Z * Z) : bool :=
+  let '(a1, a2, a3) := a in let '(b1, b2, b3) := b in (a1 =? b1) && (a2 =? b2) && (a3 =? b3).
+Definition c19_t5_eqb (a b : Z * Z * Z * Z * Z) : bool :=
+  let '(a1, a2, a3, a4, a5) := a in let '(b1, b2, b3, b4, b5) := b in
+  (a1 =? b1) && (a2 =? b2) && (a3 =? b3) && (a4 =? b4) && (a5 =? b5).
+Definition c19_set_eqb {A} (eqb : A -> A -> bool) (a b : list A) : bool :=
+  forallb (fun x => existsb (eqb x) b) a && forallb (fun x => existsb (eqb x) a) b.
+
+Definition c19_status_of (s : pm_state) : list (Z * Z * Z * Z * Z) :=
+  map (fun ne : Z * pm_entry =>
+         let e := snd ne in
+         (fst ne, pe_id e, pw_phase_code (pw_ph (pe_w e)), (if pw_haserr (pe_w e) then 1 else 0), rc_val (pe_cfg e)))
+      (pm_map s).
+
+(* reason codes: 11 messages, 12 result, 13 status rows *)
+Fixpoint c19_recon_check (t : pw_timing) (s : pm_state) (now : Z) (steps : list c19_rstep) : Z :=
+  match steps with
+  | [] => 0
+  | (op, msgs, res, status) :: r =>
+      let '(s1, now1, outs) := c19_model_step t s now op in
+      let mm := flat_map c19_msg_of outs in
+      let mr := match flat_map c19_result_of outs with x :: _ => x | [] => 0 end in
+      if negb (c19_set_eqb c19_t3_eqb msgs mm) then 11
+      else if negb (res =? mr) then 12
+      else if negb (c19_set_eqb c19_t5_eqb status (c19_status_of s1)
+                    && (Z.of_nat (length status) =? Z.of_nat (length (pm_map s1)))) then 13
+      else c19_recon_check t s1 now1 r
+  end.
+
+(* the model's run of a case, for the coverage counters *)
+Fixpoint c19_recon_outs (t : pw_timing) (s : pm_state) (now : Z) (steps : list c19_rstep)
+  : list (c19_rop * pm_state * pm_state * list pm_out) :=
+  match steps with
+  | [] => []
+  | (op, _, _, _) :: r =>
+      let '(s1, now1, outs) := c19_model_step t s now op in
+      (op, s, s1, outs) :: c19_recon_outs t s1 now1 r
+  end.
 
 Definition c19_health_model (kind maxFailed : Z) (hasN hasF : bool) (probes : list Z) : list (list Z) :=
   let c := {| hm_max := hm_norm_max maxFailed; hm_hasN := hasN; hm_hasF := hasF |} in
@@ -52,6 +149,8 @@ Definition c19_check_case (c : c19_case) : Z :=
       if negb (c19_zll_eqb events (c19_health_model kind maxFailed hasN hasF probes)) then 1
       else if hasN && hasF && negb (c19_health_holds kind maxFailed probes events) then 2
       else 0
+  | CRecon w e steps =>
+      c19_recon_check {| pw_wait := w; pw_errto := e |} pm_init 1000 steps
   end.
 
 (* coverage counters: how many cases made the model withdraw / register again / survive a
@@ -60,10 +159,12 @@ Definition c19_flat (l : list (list Z)) : list Z := List.concat l.
 Definition c19_case_withdraws (c : c19_case) : bool :=
   match c with
   | CHealth k m n f p _ => existsb (Z.eqb 1) (c19_flat (c19_health_model k m n f p))
+  | _ => false
   end.
 Definition c19_case_reregisters (c : c19_case) : bool :=
   match c with
   | CHealth k m n f p _ => 2 <=? count_if (Z.eqb 0) (c19_flat (c19_health_model k m n f p))
+  | _ => false
   end.
 (* a failed probe, later a success, later a failed probe that does not withdraw although the
    failures before and after the success add up to maxFailed or more *)
@@ -75,4 +176,51 @@ Definition c19_case_restarts_count (c : c19_case) : bool :=
       let errs := map (fun x => hm_probe_err (c19_kind k) (c19_probe x)) p in
       let fired := count_if (Z.eqb 1) (c19_flat (c19_health_model k m n f p)) in
       (fired =? 0) && (hm_norm_max m <=? c19_total_fails errs) && hm_has_success errs
+  | _ => false
   end.
+
+Definition c19_recon_trace (c : c19_case) :=
+  match c with
+  | CRecon w e steps => c19_recon_outs {| pw_wait := w; pw_errto := e |} pm_init 1000 steps
+  | _ => []
+  end.
+Definition c19_is_update (op : c19_rop) : bool := match op with ROUpdate _ => true | _ => false end.
+(* an update that kept at least one wrapper (same id before and after) *)
+Definition c19_case_keeps (c : c19_case) : bool :=
+  existsb (fun x => let '(op, s, s1, _) := x in
+                    c19_is_update op &&
+                    existsb (fun ne : Z * pm_entry =>
+                               match rc_get (pm_map s1) (fst ne) with
+                               | Some e1 => pe_id e1 =? pe_id (snd ne)
+                               | None => false
+                               end) (pm_map s))
+          (c19_recon_trace c).
+(* an update that stopped a wrapper and started another one under the same name *)
+Definition c19_case_replaces (c : c19_case) : bool :=
+  existsb (fun x => let '(op, s, s1, _) := x in
+                    c19_is_update op &&
+                    existsb (fun ne : Z * pm_entry =>
+                               match rc_get (pm_map s1) (fst ne) with
+                               | Some e1 => negb (pe_id e1 =? pe_id (snd ne))
+                               | None => false
+                               end) (pm_map s))
+          (c19_recon_trace c).
+Fixpoint c19_has_dup (l : list Z) : bool :=
+  match l with [] => false | x :: r => existsb (Z.eqb x) r || c19_has_dup r end.
+Definition c19_case_has_duplicate (c : c19_case) : bool :=
+  existsb (fun x => let '(op, _, _, _) := x in
+                    match op with ROUpdate cfgs => c19_has_dup (map (fun y => fst (fst y)) cfgs) | _ => false end)
+          (c19_recon_trace c).
+(* a NewProxy sent by a wrapper that was in start error *)
+Definition c19_case_retries_start_error (c : c19_case) : bool :=
+  existsb (fun x => let '(op, s, s1, _) := x in
+                    existsb (fun ne : Z * pm_entry =>
+                               match pw_ph (pe_w (snd ne)), rc_get (pm_map s1) (fst ne) with
+                               | PWStartErr, Some e1 => (pe_id e1 =? pe_id (snd ne)) && pw_phase_eqb (pw_ph (pe_w e1)) PWWait
+                               | _, _ => false
+                               end) (pm_map s))
+          (c19_recon_trace c).
+Definition c19_case_reaches_running (c : c19_case) : bool :=
+  existsb (fun x => let '(_, _, s1, _) := x in
+                    existsb (fun ne : Z * pm_entry => pw_phase_eqb (pw_ph (pe_w (snd ne))) PWRunning) (pm_map s1))
+          (c19_recon_trace c).
